@@ -308,6 +308,11 @@ SLOTS = ["info.title", "info.version", "info.description", "tag", "operationId",
          "enum.value.component", "enum.value.param", "enum.default", "pathitem.summary", "pathitem.description", "const.value", "default.string", "param.default", "server.url", "security.name"]
 
 
+IDENT_SLOTS = ["enum.value", "enum.value.nullable", "enum.value.component", "enum.value.param", "property.name", "param.name.query", "param.name.header",
+               "schema.name", "tag", "operationId", "security.name"]
+IDENT_WORDS = ["_1d", "_", "__3", "1", "-", "class", "_-", "a$b", "__", " ", ".", "1a", "_a", "a_", "None", "\u00e9", "\u00b2", "$", "_ 1", "--"]
+
+
 def payloads(cex: dict, quick: bool, rnd) -> list[tuple[str, str]]:
     """(class signature, text).  Every payload carries the marker call so that escaping into code is observable."""
     words = set()
@@ -321,6 +326,9 @@ def payloads(cex: dict, quick: bool, rnd) -> list[tuple[str, str]]:
         for law, h in laws.items():
             if h:
                 words.add(tuple(h))
+    # runs of one delimiter (a replace() that does not overlap, a counter that wraps): n = 4, 5, 7
+    for c in ("DQ", "SQ", "BS"):
+        words |= {(c,) * 4, (c,) * 5, (c,) * 7}
     words |= {("DQ", "DQ", "DQ"), ("BS", "DQ", "DQ", "DQ"), ("SQ", "SQ", "SQ"), ("DQ", "NL"), ("BS", "NL"), ("LB", "X", "RB"), ("BS", "BS", "DQ"), ("X", "BS")}
     if not quick:
         words |= set(itertools.product(["DQ", "SQ", "BS", "NL", "LB"], repeat=3))
@@ -419,7 +427,7 @@ def run(rep) -> None:
         rep.extra["lexer_counterexamples"] = {f"{c}/{e}": v for (c, e), v in cex.items()}
         pl = payloads(cex, quick, rnd)
         if quick:
-            must = [p for p in pl if p[0].startswith("composite") or p[0] in ("DQ", "SQ", "BS", "NL", "LB", "BS+DQ", "DQ+DQ+DQ", "BS+DQ+DQ+DQ", "X+BS", "DQ+NL", "BS+NL", "HASH", "SQ+SQ+SQ", "LB+X+RB", "BS+BS+DQ", "AST", "LS", "FF", "AST+DQ", "BS+AST", "NUL", "CTL", "BS+NUL", "CTL+DQ")]
+            must = [p for p in pl if p[0].startswith("composite") or p[0] in ("DQ", "SQ", "BS", "NL", "LB", "BS+DQ", "DQ+DQ+DQ", "BS+DQ+DQ+DQ", "X+BS", "DQ+NL", "BS+NL", "HASH", "SQ+SQ+SQ", "LB+X+RB", "BS+BS+DQ", "AST", "LS", "FF", "AST+DQ", "BS+AST", "NUL", "CTL", "BS+NUL", "CTL+DQ", "DQ+DQ+DQ+DQ", "DQ+DQ+DQ+DQ+DQ", "SQ+SQ+SQ+SQ", "BS+BS+BS+BS", "DQ+DQ+DQ+DQ+DQ+DQ+DQ")]
             rest = [p for p in pl if p not in must]
             pl = must + rnd.sample(rest, 14)
         jobs, meta = [], []
@@ -431,6 +439,14 @@ def run(rep) -> None:
                 out = d / f"s{len(jobs):05d}"
                 jobs.append((doc, str(out), {"meta": m, "docstrings_on_attributes": (pi % 2 == 0), "literal_enums": (pi % 3 == 0)}))
                 meta.append((slot, sig, text, info, out, m))
+        # text that becomes an IDENTIFIER (member, attribute, argument, class, module names): words that are hostile to identifier derivation
+        for si, slot in enumerate(IDENT_SLOTS):
+            for pi, word in enumerate(IDENT_WORDS[:8] if quick else IDENT_WORDS):
+                doc, info = slot_document(slot, word)
+                info = dict(info, runtime=None)         # safety only (the words carry no marker); what the names become is C09's business
+                out = d / f"s{len(jobs):05d}"
+                jobs.append((doc, str(out), {"meta": "none", "docstrings_on_attributes": False, "literal_enums": (pi % 2 == 1)}))
+                meta.append((slot, "ident:" + "".join(ch if ch.isalnum() else f"u{ord(ch):02x}" for ch in word), word, info, out, "none"))
         results = treegen.generate_many(jobs)
         for (slot, sig, text, info, out, m), g in zip(meta, results):
             rep.count(1, (slot, sig))
